@@ -336,7 +336,8 @@ def run(replay=None):
                 "with the lemmas Symmetric / Composition over all triples / ValueModel); all pairs of sides with <= 2 entries over a "
                 f"{len(SUB_Q if tier == 'quick' else SUB_T)}-unit sub-table with exponents -1, 1, 2 (<= 3 entries); prefixed and exponentiated variants so that every "
                 "admissible (prefix, unit) pair is converted; each replayed through value() and to() on fresh objects for the magnitudes "
-                "0, 1, -3, 2.5e-7, 1e30 and an array, round trips, triples; non-trivial = distinct ordered pairs with different sides that convert, "
+                "0, 1, -3, 2.5e-7, 1e30, an array and Decimal values in a seeded order through the same target (the result and its kind must "
+                "not depend on what was converted before), refused pairs also with 0, -0.0 and an all-zero array, round trips, triples; non-trivial = distinct ordered pairs with different sides that convert, "
                 "or refused pairs carrying a feature tag",
         "samples": samples, "exhaustive": True, "classes": classes, "triples": len(tjobs),
         "magnitudes": mags, "array": arr,
